@@ -164,6 +164,61 @@ func colorSweep(scalePath, lumPath, mode string) error {
 		}(w)
 	}
 	wg.Wait()
+	// MulDiv is a pure function: SEQUENTIAL histories (one goroutine) must give the same answers as the table --
+	// (a) episodes over small working sets of colours and ratios with immediate repeats (memo tables, stale keys, the
+	// multiplicand-0 and equal-ratio fast paths), (b) "fades": a colour that uses channel level 31, then K ratio changes
+	// on a dim palette that never touches that level, then the first colour again under a new ratio, for every
+	// K in 1..520 and around the powers of two up to 2^17 (generation counters that wrap)
+	hcalls := 0
+	{
+		r := rand.New(rand.NewSource(seedEnv() + 5))
+		mds := []uint8{0, 1, 2, 3, 8, 16, 24, 31, 32, 255}
+		for ep := 0; ep < 60000; ep++ {
+			nc, nr := 1+r.Intn(3), 1+r.Intn(3)
+			cs := make([]uint16, nc)
+			for i := range cs {
+				cs[i] = pickCol(r)
+			}
+			type ratio struct{ m, d uint8 }
+			rs := make([]ratio, nr)
+			for i := range rs {
+				m, d := pickMD(r), pickMD(r)
+				if r.Intn(3) == 0 {
+					m, d = mds[r.Intn(len(mds))], mds[r.Intn(len(mds))]
+				}
+				if d == 0 {
+					d = 1 + uint8(r.Intn(255))
+				}
+				rs[i] = ratio{m, d}
+			}
+			for k := 3 + r.Intn(8); k > 0; k-- {
+				c, q := cs[r.Intn(nc)], rs[r.Intn(nr)]
+				checkOne(c, q.m, q.d)
+				hcalls++
+				if r.Intn(3) == 0 { // immediate repeat of the identical call
+					checkOne(c, q.m, q.d)
+					hcalls++
+				}
+			}
+		}
+		gaps := []int{}
+		for k := 1; k <= 520; k++ {
+			gaps = append(gaps, k)
+		}
+		for p := 10; p <= 17; p++ {
+			gaps = append(gaps, 1<<uint(p)-1, 1<<uint(p), 1<<uint(p)+1)
+		}
+		dim := []uint16{0x0421, 0x0842, 0x0000, 0x0C63}
+		for _, k := range gaps {
+			checkOne(0x7FFF, 1, 1)
+			for i := 0; i < k; i++ {
+				checkOne(dim[i%len(dim)], uint8(1+i%2), uint8(2+i%2)) // the ratio changes on every call
+			}
+			checkOne(0x7FFF, 1, 3)
+			checkOne(0x7FFF, 2, 3)
+			hcalls += k + 3
+		}
+	}
 	// packing / luminosity: all 2^16 colours, all 2^24 byte triples (the statement itself, on the real functions)
 	for c := 0; c < 65536; c++ {
 		col := color15.Color(c)
@@ -187,7 +242,7 @@ func colorSweep(scalePath, lumPath, mode string) error {
 		}
 	}
 	return json.NewEncoder(os.Stdout).Encode(map[string]interface{}{
-		"muldiv_calls": calls, "colours": len(cols), "triples": 1 << 24, "mismatches": nbad, "examples": bad,
+		"muldiv_calls": calls, "history_calls": hcalls, "colours": len(cols), "triples": 1 << 24, "mismatches": nbad, "examples": bad,
 	})
 }
 
